@@ -2,11 +2,11 @@
 _State (normal and -O interpreter), model = Gen/State.v run by Sem/ScnSwitch.show_hist. Monitor: the property itself."""
 from __future__ import annotations
 import itertools, random, json
-from ..harness import coq, impl
+from ..harness import coq, impl, scn, gen, obs as O, pyeval
 
 pid = 'C07'
-gen_modules = ['tr_state']
-model_targets = ['Sem/ScnSwitch.v']
+gen_modules = ['tr_state', 'tr_validators', 'tr_has_patcher', 'tr_contracts']
+model_targets = ['Sem/ScnSwitch.v', 'Sem/Scenario.v']
 hand_modelled = []
 OPS = ['enable', 'disable', 'reset', 'perm']
 COQ = {'enable': 'OEnable', 'disable': 'ODisable', 'reset': 'OReset', 'perm': 'ODisablePerm'}
@@ -91,6 +91,159 @@ def run(ctx, fr, model_available=True, extra=1):
         fr.samples.append({'py_debug': py_debug, 'history': hs[700 % len(hs)], 'impl': obs[700 % len(hs)]})
     fr.distribution = {'histories': len(hs), 'max_exhaustive_length': maxlen,
                        'with_permanent_disable': sum('perm' in h for h in hs)}
+    api_part(ctx, fr, model_available)
+    removal_part(ctx, fr)
+
+
+I = lambda n: {'i': n}
+
+
+def api_scenario(rnd):
+    """a contracted function (every kind of contract, violated by the calls) driven through a random switch history"""
+    ids = gen.Ids()
+    sig = [['x', 'PosOrKw', None]]
+    kind = rnd.choice(['sync', 'sync', 'async', 'gen'])
+    stack = [['pre', {'id': ids(), 'sig': sig, 'expr': ['bin', 'gt', ['var', 'x'], ['const', I(100)]], 'msg': None, 'exc': None}],
+             ['post', {'id': ids(), 'sig': [['r', 'PosOrKw', None]], 'expr': ['const', {'b': False}], 'msg': None, 'exc': None}],
+             ['ensure', {'id': ids(), 'sig': [['_', 'PosOrKw', None]], 'expr': ['const', {'b': False}], 'msg': None, 'exc': None}],
+             ['raises', ids(), [], None, None],
+             ['reason', scn.cls('ValueError'), {'id': ids(), 'sig': sig, 'expr': ['const', {'b': False}], 'msg': None, 'exc': None}],
+             ['has', ids(), [], None, None]]
+    stack = rnd.sample(stack, rnd.randint(1, len(stack)))
+    body = [['effect', rnd.choice(['out', 'err', 'sock'])]]
+    if kind == 'gen': body.append(['yield', ['var', 'x']])
+    if rnd.random() < .3: body.append(['if', ['bin', 'eq', ['var', 'x'], ['const', I(1)]], [['raise', scn.cls('ValueError'), 100]], []])
+    body.append(['return', ['var', 'x']])
+    driver, gv = [], 0
+    for _ in range(rnd.randint(3, 7)):
+        if rnd.random() < .45:
+            driver.append(['switch', rnd.choice(OPS)])
+        else:
+            x = rnd.randint(0, 3)
+            if kind == 'gen':
+                driver += [['gennew', gv, 'f', [I(x)], []], ['next', gv], ['next', gv]]; gv += 1
+            else:
+                driver.append(['call', 'f', [I(x)], []])
+    return {'funs': [{'name': 'f', 'kind': kind, 'sig': sig, 'stack': stack, 'body': body}], 'driver': driver}
+
+
+def api_monitor(sc, obs):
+    acts = O.split(obs)
+    if acts is None:
+        return 'harness/observation error: ' + str(obs)[:200]
+    enabled, removed = True, False
+    f = sc['funs'][0]
+    raises_x1 = any(s[0] == 'if' for s in f['body'])
+    gens = {}
+    for a, act in zip(sc['driver'], acts):
+        if a[0] == 'switch':
+            op = a[1]
+            if removed and op in ('enable', 'reset', 'perm'):
+                if not (act.kind == 'X' and act.exc_class == 'RuntimeError'):
+                    return f'{op} after a permanent disable must raise RuntimeError; got {act.outcome!r}'
+            else:
+                if act.kind != 'R': return f'{op} raised {act.outcome!r}'
+                if op == 'enable': enabled = True
+                elif op == 'reset': enabled = True
+                else: enabled = False
+                if op == 'perm': removed = True
+            want = 'S ' + ('1' if enabled else '0') + ('1' if removed else '0')
+            if not act.snap.startswith(want):
+                return f'after {op}: snapshot {act.snap!r}, expected enabled={enabled} removed={removed}'
+            continue
+        if not enabled:
+            # inert: no validator evaluated, no stream replaced, behaves as the undecorated function
+            if act.validators():
+                return f'contracts are disabled but validators {act.validators()} were evaluated on {a}'
+            if any(e.startswith('K ') for e in act.effects()):
+                return f'contracts are disabled but an effect was blocked on {a}: {act.effects()}'
+            if a[0] == 'call':
+                x = a[2][0]['i']
+                ok = (act.kind == 'X' and act.field('tag') == '100') if (raises_x1 and x == 1) else (act.kind == 'R' and act.value == f'i{x}')
+                if not ok: return f'contracts are disabled: {a} should behave as the undecorated function; got {act.outcome!r}'
+    return None
+
+
+def api_part(ctx, fr, model_available):
+    rnd = random.Random(ctx.seed * 31 + 7)
+    scs = [api_scenario(rnd) for _ in range(1500 if ctx.tier == 'thorough' else 250)]
+    im = scn.run_impl(scs)
+    mo, errs = (scn.run_model('C07api', scs) if model_available else ([None] * len(scs), []))
+    fr.errors += errs
+    for sc, oi, om in zip(scs, im, mo):
+        fr.evaluations += 1
+        if any(a[0] == 'switch' for a in sc['driver']): fr.add_nontrivial(sc)
+        v = api_monitor(sc, oi)
+        if v: fr.violations.append({'scenario': sc, 'impl': oi, 'what': v})
+        if om is not None:
+            fr.programs += 1; fr.traces_validated += 1
+            if om != oi: fr.disagreements.append({'scenario': sc, 'impl': oi, 'model': om})
+    fr.distribution['api_scenarios'] = len(scs)
+
+
+REMOVAL_SRC = '''
+import deal, warnings
+warnings.simplefilter("ignore")
+def check():
+    out = {}
+    def f(x): return x
+    class K:
+        def m(self, x): return x
+    deal.disable(permament=True)
+    decs = {
+        "pre": deal.pre(lambda x: x > 0), "post": deal.post(lambda r: r > 0), "ensure": deal.ensure(lambda _: True),
+        "raises": deal.raises(ValueError), "reason": deal.reason(ValueError, lambda x: True), "has": deal.has(),
+        "safe": deal.safe, "pure": deal.pure, "example": deal.example(lambda: True), "inherit": deal.inherit,
+        "chain": deal.chain(deal.pre(lambda x: x > 0), deal.has()),
+    }
+    for name, d in decs.items():
+        out[name] = d(f) is f
+    out["inv"] = deal.inv(lambda obj: False)(K) is K
+    for op in ("enable", "reset"):
+        try:
+            getattr(deal, op)(); out[op + "_raises"] = False
+        except RuntimeError:
+            out[op + "_raises"] = True
+    try:
+        deal.disable(permament=True); out["perm_again_raises"] = False
+    except RuntimeError:
+        out["perm_again_raises"] = True
+    try:
+        deal.module_load(deal.pure); out["module_load_inert"] = True
+    except BaseException as e:
+        out["module_load_inert"] = type(e).__name__
+    return out
+
+def check_disabled_inv():
+    @deal.inv(lambda obj: obj.x > 0)
+    class A:
+        def __init__(self): self.x = 1
+        def bad(self): self.x = -5; return "ran"
+    a = A()
+    deal.disable()
+    r = {"assign": None, "method": None}
+    try:
+        a.x = -1; r["assign"] = True
+    except BaseException as e:
+        r["assign"] = type(e).__name__
+    try:
+        r["method"] = a.bad() == "ran"
+    except BaseException as e:
+        r["method"] = type(e).__name__
+    deal.enable()
+    return r
+'''
+
+
+def removal_part(ctx, fr):
+    for name in ('check', 'check_disabled_inv'):
+        res = impl.run_impl('pyexec.py', {'src': REMOVAL_SRC, 'calls': [[name, []]]})[0]
+        fr.evaluations += 1; fr.add_nontrivial({'removal': name})
+        bad = [k for k, v in (res.items() if isinstance(res, dict) else [('error', res)]) if v is not True]
+        if bad:
+            fr.violations.append({'scenario': {'family': 'removal', 'check': name}, 'impl': res,
+                                  'what': f'{name}: after disable every decorator must be inert / return its argument; failing: {bad} ({res})'})
+        fr.samples.append({'family': 'removal', 'check': name, 'result': res})
 
 
 def search(ctx, fr, model_available=True):
